@@ -1,3 +1,133 @@
-import GnoVerif.Model.C06Machine
+import GnoVerif.Proofs.C06Finalize
+/-!
+C06 — the persisted object graph stays consistent after every transaction.
+
+Model: `GnoVerif.Model.C06Realm` (the realm finalizer of gnovm/pkg/gnolang/realm.go,
+function by function), `Model.C06Machine` (the heap-machine programs of the
+harness), `Model.C06Inv` (the statement as a decidable predicate `Inv` on a
+persisted state; `verdict` names the first failing clause).
+
+What is proved here, for ALL states, realms, operands and fuel values:
+
+* the reference-count clause as an invariant of the code paths that change
+  counts — `DidUpdate` after an assignment, `incRefCreatedDescendants`,
+  `decRefDeletedDescendants`, and every phase of `FinalizeRealmTransaction` —
+  in the form  rc(a) = #slots of counted (real, not deleted) objects that point
+  to a  (+ the package block's two outside references);
+* the full statement FAILS on the unchanged code: `owner_stale_counterexample`
+  (an object moved between two persisted parents inside one transaction keeps
+  its old owner), hence `object_graph_consistent_statement` is refuted.
+
+What is NOT proved (see `finalize_keeps_refcounts_partial`): that
+processNewCreatedMarks leaves no unreal object referenced by a counted one
+(`Closed`) and that marked-deleted objects are real — both are hypotheses of the
+finalize theorem; the owner clause (false as stated, see the counterexample),
+no-dangling, reachability and the stored-hash clause are checked by the
+correspondence run and the raw-store oracle only.
+Helper lemmas: Proofs/C06Basic.lean, C06Count.lean, C06Update.lean, C06Finalize.lean.
+-/
 namespace GnoVerif.C06
+open State
+
+/-! ### the statement -/
+
+/-- the persisted state after a history of transactions `(realm, script)` of the heap machine,
+    each committed iff it did not panic -/
+def history (txs : List (Nat × List Char)) : State :=
+  txs.foldl (fun s t => (execTx s t.1 t.2).1) initState
+
+/-- C06 as stated, over the heap-machine programs: after every committed transaction of every
+    history the persisted graph satisfies every clause (`Inv`). -/
+def object_graph_consistent_statement : Prop := ∀ txs, Inv (history txs)
+
+/-- the same restricted to the reference-count clause -/
+def refcounts_exact_statement : Prop :=
+  ∀ txs a, live (history txs) a = true → refCountOK (history txs) a = true
+
+/-! ### the finding: a move between persisted parents keeps the old owner -/
+
+/-- tx1: R0 = &Node{}; R1 = &Node{}   tx2: R0.L = &Node{}   tx3: x := R0.L; R1.L = x; R0.L = nil -/
+def moveWitness : List (Nat × List Char) :=
+  [(0, ['N','0','_','P','0','0','N','1','_','P','1','1']),
+   (0, ['N','2','_','G','0','0','l','0','2']),
+   (0, ['G','0','0','G','1','1','L','2','0','l','1','2','Z','3','_','l','0','3'])]
+
+/-- After the move the moved object (singly referenced, never escaped) records an owner that
+    does not hold the reference: the first failing clause is `owner-stale`. -/
+theorem owner_stale_counterexample : verdict (history moveWitness) = some .ownerStale := by decide
+
+/-- … while the state before the move satisfies every clause. -/
+theorem before_move_consistent : Inv (history (moveWitness.take 2)) := by decide
+
+/-- Hence the statement, as written, does not hold of the code as it is. -/
+theorem object_graph_consistent_counterexample : ¬ object_graph_consistent_statement := by
+  intro h
+  have := h moveWitness
+  unfold Inv at this
+  rw [owner_stale_counterexample] at this
+  exact absurd this (by decide)
+
+/-! ### the reference-count clause through the code that changes counts -/
+
+/-- `po.slot[i] = v` followed by `DidUpdate(po, old, v)`: if every count was exact before, it is
+    exact afterwards.  Hypotheses: the written object, if real, belongs to the executing realm
+    (the VM's readonly check) and is not deleted; `v` is an address of the heap. -/
+theorem didUpdate_keeps_refcounts (s : State) (cur po i : Nat) (v : Option Nat)
+    (hw : WF s) (h : RCI s fun _ => 0) (hpo : po < s.heap.length) (hi : i < (s.get po).kids.length)
+    (hv : ∀ c, v = some c → c < s.heap.length)
+    (hown : s.isReal po = true → (s.get po).pkg = cur ∧ (s.get po).deleted = false) :
+    WF (assign s cur po i v) ∧ RCI (assign s cur po i v) fun _ => 0 :=
+  (assign_keeps s cur po i v hw h hpo hi hv hown).2
+
+/-- `incRefCreatedDescendants` (any fuel, any start object, any pending `owe`): the crawl that
+    gives ids to new objects and counts their slots keeps every count exact. -/
+theorem incRef_keeps_refcounts (fuel r a : Nat) (s : State) (owe : Nat → Int) (hw : WF s) (h : RCI s owe) :
+    WF (incRef fuel s r a) ∧ RCI (incRef fuel s r a) owe :=
+  (incRef_keeps fuel r a s owe hw h).2
+
+/-- `decRefDeletedDescendants`: the crawl that deletes an unreferenced real object and uncounts
+    its slots keeps every count exact (start object real; slots of counted objects real). -/
+theorem decRef_keeps_refcounts (fuel r a : Nat) (s : State) (owe : Nat → Int) (hw : WF s) (hc : Closed s)
+    (h : RCI s owe) (hreal : s.isReal a = true) :
+    WF (decRef fuel s r a) ∧ Closed (decRef fuel s r a) ∧ RCI (decRef fuel s r a) owe :=
+  let ⟨_, w, c, r, _⟩ := decRef_keeps fuel r a s owe hw hc h hreal
+  ⟨w, c, r⟩
+
+/-- `FinalizeRealmTransaction` keeps every count exact.  PARTIAL: two facts about the state
+    that processNewCreatedMarks leaves are hypotheses, not yet theorems —
+    `hdel` (objects marked new-deleted are real) and `hcl` (no counted object has a slot
+    pointing to an object without id). -/
+theorem finalize_keeps_refcounts_partial (s : State) (r : Nat) (hw : WF s) (h : RCI s fun _ => 0)
+    (hdel : ∀ a ∈ ((processNewCreated s r).marksOf r).newDeleted, (processNewCreated s r).isReal a = true)
+    (hcl : Closed (processNewCreated s r)) :
+    WF (finalize s r) ∧ RCI (finalize s r) fun _ => 0 :=
+  (finalize_keeps s r (fun _ => 0) hw h hdel hcl).2
+
+/-! ### the hypotheses are satisfiable, and the invariant is what the statement's clause says -/
+
+theorem initState_wf : WF initState := by
+  refine ⟨fun a _ => ?_, fun a ha c hc => ?_⟩
+  · have hl : initState.heap.length = 10 := by decide
+    by_cases h : a < 10
+    · have : ∀ b, b < 10 → (initState.get b).deleted = false := by decide
+      exact this a h
+    · rw [get_default_of_ge initState a (by omega)]; rfl
+  · have hl : initState.heap.length = 10 := by decide
+    rw [hl] at ha ⊢
+    have : ∀ b, b < 10 → ∀ c ∈ initState.children b, c < 10 := by decide
+    exact this a ha c hc
+
+theorem initState_rci : RCI initState fun _ => 0 := by
+  intro a ha
+  have hl : initState.heap.length = 10 := by decide
+  rw [hl] at ha
+  have : ∀ b, b < 10 → (initState.get b).rc + 0 = refs initState b + pinned (initState.get b) := by decide
+  exact this a ha
+
+/-- non-vacuity of `didUpdate_keeps_refcounts`: the deployment state satisfies its hypotheses
+    for the assignment `R0 = nil` of realm 0 -/
+example : WF (assign initState 0 (rootAddr 0 0) 0 none) ∧ RCI (assign initState 0 (rootAddr 0 0) 0 none) fun _ => 0 :=
+  didUpdate_keeps_refcounts initState 0 (rootAddr 0 0) 0 none initState_wf initState_rci (by decide) (by decide)
+    (by intro c h; cases h) (by intro _; decide)
+
 end GnoVerif.C06
